@@ -38,6 +38,7 @@ def mon_c10(k, domain, server_ips, bind_port=None, ns_ip=None, wildcard=False, p
     if wildcard:
         dl = dl[1:]
     seen = {}       # src addr -> set of (id, labels, type, class) of strictly valid queries received
+    unanswered = {} # (src addr, key) -> copies received and not yet answered
     skip = fwd_causes(k, bind_port)
     for ev in k.log:
         kind, who, kw = ev[1], ev[2], ev[3]
@@ -48,7 +49,9 @@ def mon_c10(k, domain, server_ips, bind_port=None, ns_ip=None, wildcard=False, p
             info, problems = dnsstrict.check(d)
             if not problems and info["question"] and info["qr"] == 0 and _labels_ok_for_echo(info["question"][0]):
                 q = info["question"]
-                seen.setdefault(kw["src"], {})[(info["id"], tuple(q[0]), q[1], q[2])] = kw["dst"]
+                key_ = (info["id"], tuple(q[0]), q[1], q[2])
+                seen.setdefault(kw["src"], {})[key_] = kw["dst"]
+                unanswered[(kw["src"], key_)] = unanswered.get((kw["src"], key_), 0) + 1
             continue
         if kind != "send" or (procs is not None and who not in procs):
             continue
@@ -85,6 +88,16 @@ def mon_c10(k, domain, server_ips, bind_port=None, ns_ip=None, wildcard=False, p
         got = seen.get(kw["dst"], {})
         if key in got:
             stats["c10_echo_checked"] += 1
+            # "the query it answers": every answer uses up one received copy of that query; an answer that matches
+            # only queries which have all been answered already (e.g. a cache replay sent with the id and address
+            # of the original instead of the repeat it responds to) answers nothing
+            left = unanswered.get((kw["dst"], key), 0)
+            if left <= 0:
+                viol.append(("C10:echo-mismatch:query-already-answered",
+                             "answer (id %d, %r type %d) to %s repeats the id/name/type of a query that had already been answered; the query it responds to has another id or address"
+                             % (info["id"], b".".join(q[0])[:60], q[1], kw["dst"]), {"time_us": ev[0], "datagram": d.hex()[:600]}))
+                continue
+            unanswered[(kw["dst"], key)] = left - 1
         else:
             # was there any strictly valid query from that address at all? if the query itself was
             # malformed / had dots in labels it is outside the property's quantifier
@@ -242,6 +255,18 @@ def mon_c14(k, domain, bind_port=None, wildcard=False):
                     break
             ck = kw.get("cause")
             triggers.add("timer" if ck is None else ("tun" if isinstance(ck, tuple) else "query"))
+        elif kind == "send_error":
+            # the server tried to answer but the OS refused the datagram (e.g. wrong address family for that socket):
+            # the query is no longer held back by the server
+            try:
+                m = proto.parse_msg(kw.get("data", b""))
+                if m.qr and m.qd:
+                    ql = tuple(l.lower() for l in m.qd[0][0])
+                    for uid, h in held.items():
+                        h.pop((ql, m.qd[0][1]), None)
+                    stats["c14_answers_refused_by_os"] = stats.get("c14_answers_refused_by_os", 0) + 1
+            except proto.ParseError:
+                pass
         elif kind == "wait":
             stats["c14_waits_checked"] += 1
             for uid, h in held.items():
